@@ -160,8 +160,17 @@ func main() {
 	var second []kase
 	secondPlanned, secondDone := 0, 0
 	wrecTotal := map[string]int{}
-	if !run.Quick() {
+	{
+		// quick: the second crash is enumerated for ONE first-level crash point per restart class (the
+		// lowest k whose restart found that combination of persisted store/state/application heights)
+		repOf := map[string]bool{}
 		for i, o := range outcomes {
+			if run.Quick() && o != nil {
+				if repOf[o.Class] {
+					continue
+				}
+				repOf[o.Class] = true
+			}
 			if o != nil && o.WRec > 0 && o.Restarted {
 				wrecTotal[first[i].Workload] += o.WRec
 				for k2 := 1; k2 <= o.WRec; k2++ {
@@ -189,9 +198,7 @@ func main() {
 		first = append(first, second...)
 	}
 
-	if !run.Quick() {
-		c.mark("second level", t0)
-	}
+	c.mark("second level", t0)
 	t0 = time.Now()
 	// ---- candidates → 5/5 confirmation → report ----
 	type cand struct {
@@ -283,7 +290,7 @@ func main() {
 	cov := core.Coverage{
 		"evaluations":         evals,
 		"distinct_nontrivial": c.classes.Len(),
-		"rule": "crash point = (workload kind, k) with k ranging over EVERY durable write (LevelDB set/batch of block store, state DB, plugin DB, application DBs; WAL write; three file operations of the signer file) issued after height 2 is committed until height 4 is committed; thorough: additionally (kind, k, k2) with k2 over every durable write of the recovery run (process start until one further height is committed). " +
+		"rule": "crash point = (workload kind, k) with k ranging over EVERY durable write (LevelDB set/batch of block store, state DB, plugin DB, application DBs; WAL write; three file operations of the signer file) issued after height 2 is committed until height 4 is committed; additionally (kind, k, k2) with k2 over every durable write of the recovery run (process start until two further heights are committed: the interrupted one and the next) - thorough: for every k, quick: for the lowest k of every restart class (combination of persisted store/state/application heights found at the restart). " +
 			"A case = fresh runtime directory, real node subprocess dies (exit 86) immediately before write k, same directory restarted with the same command line, two further blocks, dump through the node's query interfaces, offline inspection of the three stores, offline re-execution of the recovered chain on a fresh application. " +
 			"distinct_nontrivial counts distinct (persisted store/state/application heights found at restart, heights after NewNode, verdict) classes",
 		"workloads":                 wInfo,
